@@ -3,7 +3,10 @@
 // build of /repo/service (this binary is built without the overlay and without
 // the verif tag) and compares the bytes the real server writes with the bytes
 // observed on the virtual socket. It validates the socket model and the
-// rewriter; it decides nothing about the properties.
+// rewriter; it decides nothing about the properties. Attachment sessions are
+// replayed the same way against attachment.New(...).Run() (the checks drive
+// one attachment connection through an accessor: this ties that entry point
+// to the public one - options, accept loop, one FileEventer per connection).
 package main
 
 import (
@@ -16,10 +19,14 @@ import (
 	"log/slog"
 	"net"
 	"os"
+	"sort"
+	"sync"
 	"time"
 
+	"github.com/cuteLittleDevil/go-jt808/attachment"
 	"github.com/cuteLittleDevil/go-jt808/protocol/jt808"
 	"github.com/cuteLittleDevil/go-jt808/service"
+	"github.com/cuteLittleDevil/go-jt808/shared/consts"
 )
 
 type step struct {
@@ -30,6 +37,157 @@ type step struct {
 type trace struct {
 	Name  string `json:"name"`
 	Steps []step `json:"steps"`
+	// attachment sessions (Server == "attachment"): the units are written one by one, the write side is closed, and
+	// the server - attachment.New(...).Run() with the dialect set through WithActiveSafetyType and a recording
+	// FileEventer installed through WithFileEventerFunc - must write exactly ExpectAll and hand the recorder exactly Files
+	Server    string            `json:"server,omitempty"`
+	Dialect   int               `json:"dialect,omitempty"`
+	Writes    []string          `json:"writes_hex,omitempty"`
+	ExpectAll string            `json:"expect_all_hex,omitempty"`
+	Files     map[string]string `json:"files_hex,omitempty"`
+}
+
+// attRec is the FileEventer of one real attachment connection.
+type attRec struct {
+	mu    sync.Mutex
+	files map[string][]byte
+	quit  chan struct{}
+	once  sync.Once
+}
+
+func (r *attRec) OnEvent(p *attachment.PackageProgress) {
+	r.mu.Lock()
+	r.files = map[string][]byte{}
+	for n, pk := range p.Record {
+		r.files[n] = append([]byte(nil), pk.StreamBody...)
+	}
+	r.mu.Unlock()
+	if p.ProgressStage == attachment.ProgressStageSuccessQuit || p.ProgressStage == attachment.ProgressStageFailQuit {
+		r.once.Do(func() { close(r.quit) })
+	}
+}
+
+type attServer struct {
+	addr string
+	recs chan *attRec
+	made int
+}
+
+var attServers = map[int]*attServer{}
+
+// attServerFor starts (once per dialect) the real attachment server through its public API.
+func attServerFor(dialect int) (*attServer, error) {
+	if s, ok := attServers[dialect]; ok {
+		return s, nil
+	}
+	l, err := net.Listen("tcp", "127.0.0.1:0")
+	if err != nil {
+		return nil, err
+	}
+	s := &attServer{addr: l.Addr().String(), recs: make(chan *attRec, 64)}
+	_ = l.Close()
+	srv := attachment.New(attachment.WithHostPorts(s.addr), attachment.WithNetwork("tcp"),
+		attachment.WithActiveSafetyType(consts.ActiveSafetyType(dialect)),
+		attachment.WithFileEventerFunc(func() attachment.FileEventer {
+			r := &attRec{quit: make(chan struct{})}
+			s.recs <- r
+			return r
+		}))
+	go srv.Run()
+	for i := 0; i < 100; i++ {
+		c, err := net.Dial("tcp", s.addr)
+		if err == nil {
+			_ = c.Close()
+			r := <-s.recs // the probe connection's recorder
+			<-r.quit
+			attServers[dialect] = s
+			return s, nil
+		}
+		time.Sleep(20 * time.Millisecond)
+	}
+	return nil, errors.New("cannot reach the real attachment server")
+}
+
+// playAttachment returns "" (identical), "SKIP:..." (no loopback), "TIMEOUT:..." (the server did not get as far as
+// expected within a generous wall-clock limit: inconclusive) or a description of a difference in content.
+func playAttachment(tr trace) string {
+	s, err := attServerFor(tr.Dialect)
+	if err != nil {
+		return "SKIP:" + err.Error()
+	}
+	c, err := net.Dial("tcp", s.addr)
+	if err != nil {
+		return "TIMEOUT:" + err.Error()
+	}
+	defer c.Close()
+	for i, w := range tr.Writes {
+		data, _ := hex.DecodeString(w)
+		if _, err := c.Write(data); err != nil {
+			return fmt.Sprintf("TIMEOUT:write %d: %v", i, err)
+		}
+	}
+	if tc, ok := c.(*net.TCPConn); ok {
+		_ = tc.CloseWrite()
+	}
+	want, _ := hex.DecodeString(tr.ExpectAll)
+	var got []byte
+	deadline := time.Now().Add(20 * time.Second)
+	for len(got) < len(want) {
+		_ = c.SetReadDeadline(deadline)
+		buf := make([]byte, 65536)
+		n, err := c.Read(buf)
+		got = append(got, buf[:n]...)
+		if err != nil {
+			break
+		}
+	}
+	if !bytes.Equal(got, want) {
+		if len(got) < len(want) && bytes.Equal(got, want[:len(got)]) {
+			return fmt.Sprintf("TIMEOUT:real attachment server wrote only %d of the %d reply bytes within 20 s", len(got), len(want))
+		}
+		return fmt.Sprintf("real attachment server wrote %x, virtual run saw %x", got, want)
+	}
+	// the session has been answered, so its connection was accepted and set up: its FileEventer exists by now
+	var rec *attRec
+	select {
+	case rec = <-s.recs:
+	default:
+		if len(want) > 0 {
+			return "the session was answered but no FileEventer had been created for its connection (the function given to WithFileEventerFunc must be called once per connection)"
+		}
+		select {
+		case rec = <-s.recs:
+		case <-time.After(20 * time.Second):
+			return "TIMEOUT:no FileEventer created for the connection within 20 s"
+		}
+	}
+	select {
+	case <-rec.quit:
+	case <-time.After(20 * time.Second):
+		return "TIMEOUT:the session's quit event did not reach the FileEventer within 20 s"
+	}
+	_ = c.SetReadDeadline(time.Now().Add(100 * time.Millisecond))
+	buf := make([]byte, 4096)
+	if n, _ := c.Read(buf); n > 0 {
+		return fmt.Sprintf("real attachment server wrote extra bytes %x", buf[:n])
+	}
+	rec.mu.Lock()
+	defer rec.mu.Unlock()
+	var names []string
+	for n := range tr.Files {
+		names = append(names, n)
+	}
+	sort.Strings(names)
+	if len(rec.files) != len(tr.Files) {
+		return fmt.Sprintf("real run ended with %d files, virtual run with %d", len(rec.files), len(tr.Files))
+	}
+	for _, n := range names {
+		w, _ := hex.DecodeString(tr.Files[n])
+		if !bytes.Equal(rec.files[n], w) {
+			return fmt.Sprintf("file %q: real run assembled %x, virtual run %x", n, rec.files[n], w)
+		}
+	}
+	return ""
 }
 
 func main() {
@@ -47,6 +205,33 @@ func main() {
 	if err := json.Unmarshal(b, &traces); err != nil {
 		fmt.Println("confb:", err)
 		os.Exit(2)
+	}
+	if len(traces) > 0 && traces[0].Server == "attachment" {
+		ok, bad, slow := 0, 0, 0
+		for _, tr := range traces {
+			msg := playAttachment(tr)
+			switch {
+			case len(msg) > 5 && msg[:5] == "SKIP:":
+				fmt.Println("confb: loopback not available:", msg[5:])
+				os.Exit(3)
+			case len(msg) > 8 && msg[:8] == "TIMEOUT:":
+				slow++
+				fmt.Printf("TIMEOUT %s: %s\n", tr.Name, msg[8:])
+			case msg != "":
+				bad++
+				fmt.Printf("MISMATCH %s: %s\n", tr.Name, msg)
+			default:
+				ok++
+			}
+		}
+		fmt.Printf("confb attachment sessions=%d identical=%d mismatching=%d inconclusive=%d\n", len(traces), ok, bad, slow)
+		if bad > 0 {
+			os.Exit(1)
+		}
+		if slow > 0 {
+			os.Exit(4)
+		}
+		return
 	}
 	l, err := net.Listen("tcp", "127.0.0.1:0")
 	if err != nil {
